@@ -29,6 +29,26 @@ CLAIMS = {
   text="Partial by nature: machine-checked non-interference over an abstract step model for all N-thread interleavings, plus a vm_compute-checked inventory obligation on the library's writable static storage regenerated from the compiled objects on every run. The C operations themselves are not modelled: that they touch only their own contexts, and heap or external-library races generally, is covered by ThreadSanitizer and serial-vs-concurrent differential runs only.",
   note="T19.1 holds for any steps that never write the shared store. T19.2 ties it to this tree: the .data/.bss symbols of all library objects are on a reviewed list (log level, fd and callback written only by zck_set_log_*; bundled SHA-2 tables never written); .data.rel.ro* treated as read-only, .tdata/.tbss as per-thread. libc, OpenSSL, zstd internals trusted. TSan sees only executed interleavings.",
   tech="Coq induction over schedules; vm_compute on the generated static-storage inventory; pthread harness with wrapped read/write (forced witness schedule, random yields); ThreadSanitizer", ref="DESIGN.md 6 C19"),
+ "C05": dict(
+  text="Thirteen Coq theorems about faithful models of dl_write_range and multipart_extract, for arbitrary inputs: streaming law (every partition into non-empty callbacks, down to one byte, gives the same final state), placement of well-formed payloads, verification invariant (marked valid implies the extent hashes to the digest), confinement invariant (nothing outside the extents of requested, not-yet-valid chunks changes), mismatch implies zero-filled, marked failed, error reported. Hash and POSIX regex are universally quantified parameters. Tie: differential execution against the real zck_header_cb/zck_write_chunk_cb (plain and ASan): all 1-/2-cut partitions of small responses, every subset of missing chunks, 14 boundaries x 9 header spellings, corruption at every chunk.",
+  note="not a theorem: that the three POSIX patterns hand exactly the part payloads of a well-formed multipart body to the writer (regex semantics; differential runs and the direct oracle only). The streaming law needs non-empty pieces and no zero-length index entries (D14 witness proved as refuted).",
+  tech="Coq invariants/streaming lemma over the callback state machine + extracted-model/callback differential run with glibc regex as shared oracle", ref="DESIGN.md 6 C05/C17"),
+ "C17": dict(
+  text="Partial by nature. Seven theorems for every regex oracle under the regexec contract: the models of multipart_get_boundary, multipart_extract and zck_write_chunk_cb never read outside their buffers and always return, and whatever is written satisfies the C05 confinement and verification invariants. Heap lifetime, libc internals and single buffers of 2 GiB or more are covered only by ASan/UBSan runs on malformed header lines and bodies (incl. continuing after zck_clear_error).",
+  note="regex behaviour is an oracle parameter under the contract 'group offsets lie inside the searched string'; sanitizer runs back the rest",
+  tech="Coq no-OOB/totality proofs over the parser model for arbitrary bytes + sanitizer-backed differential run on malformed responses", ref="DESIGN.md 6 C05/C17"),
+ "C16": dict(
+  text="Sixteen Coq theorems about a faithful model of the chunker (comp_init limits, both loops of zck_write with the code's batching, end-chunk, close): the batched loop equals the per-byte fold; every segmentation into write calls gives the same chunk list; termination with an explicit per-byte iteration bound resting on a vm_compute sweep over the regenerated buzhash table; prefix locality; suffix resynchronisation; size bounds - for all contents, segmentations and legal min/max options. Tie: differential execution of ~450 (thorough ~4000) content x configuration x segmentation cases plus file-hash, edit-locality and size oracles on the implementation.",
+  note="zstd and hash determinism are checked by oracles (same file hash over runs and segmentations), not proved; locality theorems are for automatic mode; buzhash table regenerated from buzhash.c on every run",
+  tech="Coq loop-to-fold refactoring lemma, frame lemma, bit-level lemma + table sweep; extracted-model/library differential run", ref="DESIGN.md 6 C01/C16"),
+ "C12": dict(
+  text="Theorems for every fault schedule: write_data (one retry) reports success only if exactly the data reached the descriptor and otherwise leaves a prefix; zck_close = true implies the output received exactly header ++ body whatever the outcomes of the temp-file writes, the seek, the temp-file reads and the output writes; a download chunk is completed only if every byte was accepted by a successful write. Reader, scan, copy and download call sites and the zck/unzck tools are decided by exhaustive single-fault enumeration (every k-th read/write/lseek x EIO/ENOSPC/EINTR/short) with the oracle 'success implies the fault-free result', plus sampled double faults; the writer model's predictions are compared with the library under each fault.",
+  note="POSIX calls transfer a prefix or fail; close(2) results and logging not modelled; only the writer's I/O skeleton is a theorem, the other paths rest on the enumeration",
+  tech="Coq proof over all fault schedules for io.c + writer skeleton; --wrap'd syscalls for exhaustive single-fault and sampled double-fault runs", ref="DESIGN.md 6 C12"),
+ "C18": dict(
+  text="Ten Coq theorems: for every message and every split into update calls the modelled bundled SHA-1 / SHA-256 code returns the FIPS 180-4 digest (no length bound); the same for SHA-512 and SHA-512/128 below 2^61 bytes (bound forced by the 64-bit length counter); the digest is independent of the split; scraped constants equal the FIPS ones. SHA-1/256/512 are defined in Coq and checked against NIST vectors. OpenSSL and the C compression functions are compared, not proved: both builds and the extracted Coq functions run on every length 0..300 with several splits for the 4 types, on 200 long messages, on random blocks, and on file-level cross-build writes and reads.",
+  note="trusted: Coq kernel, extraction, the hand transcription of sha2.c/sha1.c/libsha.c as far as the differential run checks it, equality of the C and FIPS compression functions (tested on random blocks), OpenSSL (tested), LP64; constants, widths and layout regenerated from the sources on every run (tools/gen_sha.py)",
+  tech="executable FIPS spec in Coq; C-shaped model with explicit u32/u64 arithmetic; streaming = one-shot via a byte-wise absorb form; three-way differential run (Coq, OpenSSL build, bundled build); cross-build archive identity", ref="DESIGN.md 6 C18"),
 }
 
 PENDING_REASON = "not built yet in this revision of /verif (work in progress, DESIGN.md section 10): will be claimed once its model, theorems and correspondence run exist"
